@@ -253,9 +253,26 @@ func run(sc scenario, steps []step, check bool) string {
 	w := newWorld(sc)
 	defer w.d.Close()
 	faulted, died := false, false
+	receiptFault, bigJump := false, false
+	for _, s := range steps {
+		if s.Op == "fault" && s.Method == "eth_getTransactionReceipt" {
+			receiptFault = true
+		}
+		if s.Op == "head+" && s.N >= 60 {
+			bigJump = true
+		}
+	}
+	if receiptFault && bigJump {
+		// the head crosses the whole abandonment window in one step: the single lookup inside the window failed,
+		// so the node HAS failed to confirm the message for the whole window - abandonment is allowed
+		faulted = true
+	}
 	for i, s := range steps {
 		ev.Journal(map[string]interface{}{"name": sc.Name, "wait_for_confirmations": sc.WaitConf, "finalized_mode": sc.Finalized, "steps": steps[:i+1], "resume": curItem + 1})
-		if s.Op == "fault" {
+		if s.Op == "fault" && s.Method != "eth_getTransactionReceipt" {
+			// an error on a block lookup ends the watcher's Run (the supervisor restarts it): the pending set and
+			// the consumed log are lost - another component's concern. An error on a RECEIPT lookup must not lose
+			// anything: the message is abandoned only after the whole abandonment window.
 			faulted = true
 		}
 		w.apply(s, steps[:i+1], check)
